@@ -296,7 +296,7 @@ func (s *Session) Churn(nNodes, nSpare, steps int) {
 					s.Do("jointasks", U(j))
 					// the joiner's predecessor-to-be has not been told yet and still sees the locked node as its
 					// successor: one leave attempt of it inside this window (refused while the lock is held)
-					if p, ok := s.PredOf(j); ok && p != j && len(members) > 2 && rng.Chance(75) {
+					if p, ok := s.PredOf(j); ok && p != j && rng.Chance(75) {
 						if res := s.Do("execleave", U(p)); strings.HasPrefix(res, "ok") {
 							if f := strings.Split(res, ":"); len(f) == 3 {
 								s.Do("leavefinish", U(p), f[1], f[2])
